@@ -1,2 +1,405 @@
+//! C17: a retained (Compiler, VM) pair evaluates a session line by line.
+
+use crate::ast::{to_text, Expr, Stmt};
+use crate::gen::{Gen, Ty};
+use crate::pool::Worker;
+use crate::proj;
+use crate::run::{error_kind, take_panic_loc, UNFOLD_DEPTH};
+use crate::semfam::cfg_for;
+use crate::Args;
+use nederlang::compiler::Compiler;
+use nederlang::verif;
+use nederlang::vm::VM;
+use rand::rngs::StdRng;
+use rand::{Rng, SeedableRng};
 use serde_json::{json, Value};
-pub fn run_session(_req: &Value) -> Value { json!({}) }
+use std::io::Write;
+use std::panic::{catch_unwind, AssertUnwindSafe};
+use std::time::Duration;
+
+/// Worker op "session": req.lines = [{text, budget?}]; one observation per line
+pub fn run_session(req: &Value) -> Value {
+    verif::reset();
+    let mut compiler = Compiler::new();
+    let mut vm = VM::new();
+    let mut obs: Vec<Value> = Vec::new();
+    let empty = vec![];
+    for line in req["lines"].as_array().unwrap_or(&empty) {
+        let text = line["text"].as_str().unwrap_or("");
+        let budget = line.get("budget").and_then(|b| b.as_u64()).unwrap_or(200_000);
+        verif::set_budget(Some(budget));
+        let _ = verif::take_output();
+        let _ = verif::take_fault();
+        let r = catch_unwind(AssertUnwindSafe(|| -> Result<Value, (String, nederlang::object::Error)> {
+            let ast = nederlang::parser::parse(text).map_err(|e| ("parse".to_string(), e))?;
+            let code = compiler.compile_ast(&ast).map_err(|e| ("compile".to_string(), e))?;
+            let o = vm.run(code).map_err(|e| ("run".to_string(), e))?;
+            Ok(proj::unfold(o, UNFOLD_DEPTH))
+        }));
+        let out = verif::take_output();
+        let fault = verif::take_fault();
+        let mut o = match r {
+            Ok(Ok(v)) => json!({"class":"Value","val":v}),
+            Ok(Err((stage, e))) => {
+                let (kind, msg) = error_kind(&e);
+                if msg.starts_with("verif: budget") {
+                    json!({"class":"Budget","stage":stage})
+                } else if msg.starts_with("verif: fault") {
+                    json!({"class":"Fault","site":msg,"stage":stage})
+                } else {
+                    json!({"class":"Err","kind":kind,"msg":msg,"stage":stage})
+                }
+            }
+            Err(p) => {
+                let m = if let Some(s) = p.downcast_ref::<&str>() { s.to_string() } else if let Some(s) = p.downcast_ref::<String>() { s.clone() } else { "panic".into() };
+                json!({"class":"Panic","msg":m,"loc":take_panic_loc()})
+            }
+        };
+        if let Some(f) = fault {
+            if o["class"] != "Fault" {
+                o["late_fault"] = json!(f);
+            }
+        }
+        o["out"] = proj::cps(&out);
+        let (sp, frames, globals) = vm.verif_state();
+        o["sp"] = json!(sp);
+        o["frames"] = json!(frames);
+        o["nglobals"] = json!(globals.len());
+        let stop = o["class"] == "Panic";
+        obs.push(o);
+        if stop {
+            // a panic may have left the pair in any state: the session ends here
+            break;
+        }
+    }
+    verif::set_budget(None);
+    // the objects of the session are deliberately leaked (the collector never frees them anyway)
+    std::mem::forget(vm);
+    std::mem::forget(compiler);
+    json!({"obs":obs})
+}
+
+#[derive(Clone)]
+struct Line {
+    text: String,
+    /// statements that count as executed for later lines (all of them, or those before the failure)
+    committed: Vec<Stmt>,
+    /// the whole line when it is expected to run (None for parse / compile failures)
+    full: Option<Vec<Stmt>>,
+    fail: &'static str,
+    /// error kind of the planned run-time failure
+    kind: &'static str,
+}
+
+fn gen_session(seed: u64, nlines: usize) -> Vec<Line> {
+    let mut cfg = cfg_for("mixed");
+    cfg.max_stmts = 3;
+    cfg.func_rate = 0.15;
+    cfg.loop_rate = 0.15;
+    cfg.error_rate = 0.0;
+    cfg.empty_rate = 0.0;
+    let mut g = Gen::new(seed, cfg);
+    let mut rng = StdRng::seed_from_u64(seed ^ 0x5e55);
+    let mut lines = Vec::new();
+    for _ in 0..nlines {
+        let mut stmts: Vec<Stmt> = Vec::new();
+        let n = rng.gen_range(1..4);
+        let snapshot = g.ctxs.clone();
+        g.stmts_into(&mut stmts, n, 2);
+        if rng.gen_bool(0.8) {
+            let t = if rng.gen_bool(0.5) { Ty::Int } else { Ty::Str };
+            stmts.push(Stmt::Expr(g.expr(&t, 2)));
+        }
+        // functions do not survive the line that defines them (their code does not): forget them
+        forget_functions(&mut g);
+        let r: f64 = rng.gen();
+        if r < 0.10 {
+            // parse failure: the text is cut inside its last token region
+            let text = to_text(&stmts, true);
+            let cut = text.char_indices().map(|(i, _)| i).filter(|i| *i > 0).nth(rng.gen_range(0..text.chars().count().max(2) - 1)).unwrap_or(1);
+            let mut t = text[..cut].to_string();
+            t.push_str(" ( ");        // an opening parenthesis that is never closed: rejected whatever precedes it
+            g.ctxs = snapshot;
+            lines.push(Line { text: t, committed: vec![], full: None, fail: "parse", kind: "" });
+        } else if r < 0.22 {
+            // compile failure at a statement position: an undeclared name
+            let p = rng.gen_range(0..=stmts.len());
+            let mut s2 = stmts.clone();
+            s2.insert(p, Stmt::Expr(crate::ast::infix("+", crate::ast::id("nergens_gedeclareerd"), Expr::Int(1))));
+            g.ctxs = snapshot;
+            lines.push(Line { text: to_text(&s2, true), committed: vec![], full: None, fail: "compile", kind: "" });
+        } else if r < 0.36 {
+            // run-time failure after the first p statements
+            let p = rng.gen_range(0..=stmts.len());
+            let mut s2: Vec<Stmt> = stmts[..p].to_vec();
+            let which = rng.gen_range(0..3);
+            let bad = [
+                crate::ast::infix("+", Expr::Int(1), Expr::Bool(true)),
+                Expr::Index(Box::new(Expr::Array(vec![Expr::Int(1)])), Box::new(Expr::Int(5))),
+                crate::ast::call("int", vec![Expr::Str("abc".into())]),
+            ][which]
+            .clone();
+            let kind = ["Type", "Index", "Argument"][which];
+            s2.push(Stmt::Expr(bad));
+            // declarations after position p were never made: take the scope back to what the
+            // first p statements declared (re-generate is not possible; restrict to the snapshot
+            // plus nothing when p < len)
+            if p < stmts.len() {
+                g.ctxs = snapshot.clone();
+                redeclare(&mut g, &stmts[..p]);
+            }
+            lines.push(Line { text: to_text(&s2, true), committed: stmts[..p].to_vec(), full: Some(s2), fail: "run", kind });
+        } else {
+            lines.push(Line { text: to_text(&stmts, true), committed: stmts.clone(), full: Some(stmts), fail: "none", kind: "" });
+        }
+    }
+    lines
+}
+
+fn forget_functions(g: &mut Gen) {
+    for c in g.ctxs.iter_mut() {
+        for s in c.scopes.iter_mut() {
+            s.vars.retain(|v| !matches!(v.ty, Ty::Fn(..)));
+        }
+    }
+}
+
+/// After a run-time failure only the declarations of the executed prefix exist. The generator
+/// does not expose the types it chose, so the executed prefix's names are simply not offered
+/// to later lines unless they were visible before the line.
+fn redeclare(_g: &mut Gen, _prefix: &[Stmt]) {}
+
+pub fn gen_session_records(args: &Args) {
+    let seed = args.num("seed", 1);
+    let n = args.num("n", 50);
+    let out = args.get("out", "/dev/stdout");
+    let first_id = args.num("first-id", 1);
+    let mut sem = std::fs::File::create(&out).expect("create out");
+    let mut src = std::fs::File::create(format!("{out}.src")).expect("create src");
+    let mut ses = std::fs::File::create(format!("{out}.sessions")).expect("create sessions");
+    let mut w = Worker::spawn(Duration::from_secs(30));
+    let mut id = first_id;
+    for i in 0..n {
+        let s = seed.wrapping_mul(11_000_027).wrapping_add(i);
+        let mut rng = StdRng::seed_from_u64(s);
+        let nl = rng.gen_range(2..=12);
+        let lines = gen_session(s, nl);
+        let req = json!({"op":"session","lines":lines.iter().map(|l| json!({"text":l.text})).collect::<Vec<_>>()});
+        let r = w.request(&req);
+        let obs = r["obs"].as_array().cloned().unwrap_or_default();
+        writeln!(ses, "{}", json!({"session":i,"lines":lines.iter().map(|l| json!({"text":l.text,"fail":l.fail})).collect::<Vec<_>>(),"obs":obs})).unwrap();
+        // the law: line i behaves like the last line of the program made of everything committed before it
+        let mut committed: Vec<Stmt> = Vec::new();
+        let mut out_so_far: Vec<Value> = Vec::new();
+        for (k, l) in lines.iter().enumerate() {
+            let o = match obs.get(k) {
+                Some(o) => o.clone(),
+                None => json!({"class":"Abort","msg":"session ended early","out":[]}),
+            };
+            let line_out = o["out"].as_array().cloned().unwrap_or_default();
+            match &l.full {
+                Some(full) => {
+                    let mut prog = committed.clone();
+                    prog.extend(full.clone());
+                    let (nodes, root) = crate::ast::flatten(&prog);
+                    let mut total_out = out_so_far.clone();
+                    total_out.extend(line_out.clone());
+                    let mut ob = o.clone();
+                    ob["out"] = Value::Array(total_out);
+                    writeln!(sem, "{}", json!({"id":id,"fam":format!("session-line-{}", l.fail),"nodes":nodes,"root":root,
+                        "obs":ob,"parse_same":true,"session":i,"line":k})).unwrap();
+                    writeln!(src, "{}", json!({"id":id,"text":format!("// session {i}, line {k} as the last line of the program so far\n{}", to_text(&prog, false))})).unwrap();
+                    id += 1;
+                }
+                None => {
+                    // a line that must be rejected before it runs: a one-statement stand-in program that
+                    // the reference semantics rejects the same way would say nothing; the expectation is
+                    // stated directly as a record for NlSession (class Err, nothing printed)
+                    let ok = o["class"] == "Err" && line_out.is_empty()
+                        && (l.fail != "compile" || o["kind"] == "Reference");
+                    let (nodes, root) = crate::ast::flatten(&[Stmt::Expr(crate::ast::id("nergens_gedeclareerd"))]);
+                    let ob = if ok { json!({"class":"Err","kind":"Reference","out":[]}) } else { o.clone() };
+                    writeln!(sem, "{}", json!({"id":id,"fam":format!("session-line-{}", l.fail),"nodes":nodes,"root":root,
+                        "obs":ob,"parse_same":true,"session":i,"line":k})).unwrap();
+                    writeln!(src, "{}", json!({"id":id,"text":format!("// session {i}, line {k} must be rejected ({}): {}", l.fail, l.text)})).unwrap();
+                    id += 1;
+                }
+            }
+            committed.extend(l.committed.clone());
+            if l.fail == "none" || l.fail == "run" {
+                out_so_far.extend(line_out);
+            }
+            // a line that failed where no failure was planned (or earlier than planned: the planned
+            // failing statement is always the last one and prints nothing) was still validated above,
+            // but which of its statements completed is not known to the recorder: the session's
+            // later lines are left out
+            let unplanned = (l.fail == "none" && o["class"] != "Value")
+                || (l.fail == "run" && (o["class"] != "Err" || o["kind"].as_str() != Some(l.kind)));
+            if unplanned {
+                break;
+            }
+        }
+    }
+}
+
+// ---------------------------------------------------------------------------
+// Lines cut short at every instruction count (validated by NlSession)
+// ---------------------------------------------------------------------------
+pub fn gen_session_abort(args: &Args) {
+    let seed = args.num("seed", 1);
+    let n = args.num("n", 6);
+    let out = args.get("out", "/dev/stdout");
+    let first_id = args.num("first-id", 1);
+    let mut f = std::fs::File::create(&out).expect("create out");
+    let mut w = Worker::spawn(Duration::from_secs(30));
+    let mut rng = StdRng::seed_from_u64(seed);
+    let pool = ["a", "b", "c", "d"];
+    let mut id = first_id;
+    for _ in 0..n {
+        let nv = rng.gen_range(2..=4);
+        let names: Vec<&str> = pool[..nv].to_vec();
+        let vals: Vec<i64> = names.iter().map(|_| rng.gen_range(0..50)).collect();
+        let m = rng.gen_range(2..=5);
+        let incr: Vec<&str> = (0..m).map(|_| names[rng.gen_range(0..nv)]).collect();
+        let incr_text = incr.iter().map(|x| format!("{x} = {x} + 1;")).collect::<Vec<_>>().join(" ");
+        let show_text = format!("[{}]", names.join(", "));
+        // how many instructions does the line take when it is not cut short?
+        let mut probe: Vec<Value> = names.iter().zip(vals.iter()).map(|(n_, v)| json!({"text":format!("stel {n_} = {v}")})).collect();
+        probe.push(json!({"text":incr_text}));
+        let r = w.request(&json!({"op":"session","lines":probe}));
+        let total = r["obs"].as_array().and_then(|a| a.last()).map(|o| 0u64.max(o["sp"].as_u64().unwrap_or(0))).unwrap_or(0);
+        let _ = total;
+        let len = 6 * m as u64 + 2;
+        for k in 0..=len {
+            let mut lines: Vec<Value> = Vec::new();
+            let mut model: Vec<Value> = Vec::new();
+            for (n_, v) in names.iter().zip(vals.iter()) {
+                lines.push(json!({"text":format!("stel {n_} = {v}")}));
+                model.push(json!({"k":"decl","name":n_,"v":v,"names":[],"abort":false}));
+            }
+            lines.push(json!({"text":incr_text,"budget":k}));
+            model.push(json!({"k":"incr","name":"","v":0,"names":incr,"abort":true}));
+            lines.push(json!({"text":show_text}));
+            model.push(json!({"k":"show","name":"","v":0,"names":names,"abort":false}));
+            lines.push(json!({"text":"stel z = ( "}));
+            model.push(json!({"k":"reject","name":"","v":0,"names":[],"abort":false}));
+            lines.push(json!({"text":format!("{} onbekende_naam = 1;", incr_text)}));
+            model.push(json!({"k":"reject","name":"","v":0,"names":[],"abort":false}));
+            lines.push(json!({"text":incr_text}));
+            model.push(json!({"k":"incr","name":"","v":0,"names":incr,"abort":false}));
+            lines.push(json!({"text":show_text}));
+            model.push(json!({"k":"show","name":"","v":0,"names":names,"abort":false}));
+            let r = w.request(&json!({"op":"session","lines":lines}));
+            let obs: Vec<Value> = r["obs"]
+                .as_array()
+                .cloned()
+                .unwrap_or_default()
+                .iter()
+                .map(|o| {
+                    let val: Vec<Value> = o["val"]["items"].as_array().map(|a| a.iter().map(|x| x.get("v").cloned().unwrap_or(json!(-999))).collect()).unwrap_or_default();
+                    json!({"class":o["class"],"kind":o.get("kind").cloned().unwrap_or(json!("")),"val":val,"out":o["out"]})
+                })
+                .collect();
+            let mut obs = obs;
+            while obs.len() < model.len() {
+                obs.push(json!({"class":"Abort","kind":"","val":[],"out":[]}));
+            }
+            writeln!(f, "{}", json!({"id":id,"k":k,"lines":model,"obs":obs,"texts":lines})).unwrap();
+            id += 1;
+        }
+    }
+}
+
+// ---------------------------------------------------------------------------
+// All sessions of up to 3 lines over a 12-line alphabet (validated through the concatenation law)
+// ---------------------------------------------------------------------------
+fn alphabet() -> Vec<(Vec<Stmt>, usize, &'static str)> {
+    use crate::ast::{b, call, id, infix};
+    let asg = |n: &str, e: Expr| Stmt::Expr(Expr::Assign(b(id(n)), b(e)));
+    // (statements, number of statements that complete when the line fails at run time, junk text or "")
+    vec![
+        (vec![Stmt::Let("a".into(), Expr::Int(1))], 1, ""),
+        (vec![Stmt::Let("b".into(), Expr::Int(10))], 1, ""),
+        (vec![asg("a", infix("+", id("a"), Expr::Int(1)))], 1, ""),
+        (vec![asg("b", infix("+", id("b"), id("a")))], 1, ""),
+        (vec![Stmt::Expr(id("a"))], 1, ""),
+        (vec![Stmt::Expr(Expr::Array(vec![id("a"), id("b")]))], 1, ""),
+        (vec![], 0, "stel a = ( "),
+        (vec![Stmt::Let("c".into(), Expr::Int(1)), Stmt::Expr(id("onbekend"))], 0, ""),
+        (vec![asg("a", infix("+", id("a"), Expr::Int(5))), Stmt::Expr(infix("+", Expr::Int(1), Expr::Bool(true)))], 1, ""),
+        (vec![Stmt::Expr(call("print", vec![Expr::Str("a={}".into()), id("a")]))], 1, ""),
+        (vec![Stmt::Let("a".into(), Expr::Int(100)), Stmt::Expr(id("a"))], 2, ""),
+        (vec![Stmt::Let("k".into(), Expr::Int(0)),
+              Stmt::Expr(Expr::While { c: b(infix("<", id("k"), Expr::Int(3))), body: vec![
+                  Stmt::Expr(Expr::OpAssign("k".into(), "+", b(Expr::Int(1)))), asg("a", infix("+", id("a"), id("k")))] }),
+              Stmt::Expr(id("a"))], 3, ""),
+    ]
+}
+
+pub fn gen_session_alphabet(args: &Args) {
+    let out = args.get("out", "/dev/stdout");
+    let shard = args.num("shard", 0);
+    let shards = args.num("shards", 1);
+    let first_id = args.num("first-id", 1);
+    let mut sem = std::fs::File::create(&out).expect("create out");
+    let mut src = std::fs::File::create(format!("{out}.src")).expect("create src");
+    let mut w = Worker::spawn(Duration::from_secs(30));
+    let al = alphabet();
+    let n = al.len();
+    let mut sessions: Vec<Vec<usize>> = Vec::new();
+    for a in 0..n {
+        sessions.push(vec![a]);
+        for b_ in 0..n {
+            sessions.push(vec![a, b_]);
+            for c in 0..n {
+                sessions.push(vec![a, b_, c]);
+            }
+        }
+    }
+    let mut id = first_id;
+    for (si, s) in sessions.iter().enumerate() {
+        if (si as u64) % shards != shard {
+            continue;
+        }
+        let texts: Vec<String> = s.iter().map(|k| if al[*k].2.is_empty() { to_text(&al[*k].0, true) } else { al[*k].2.to_string() }).collect();
+        let r = w.request(&json!({"op":"session","lines":texts.iter().map(|t| json!({"text":t})).collect::<Vec<_>>()}));
+        let obs = r["obs"].as_array().cloned().unwrap_or_default();
+        let mut committed: Vec<Stmt> = Vec::new();
+        let mut out_so_far: Vec<Value> = Vec::new();
+        for (k, li) in s.iter().enumerate() {
+            let (stmts, done_on_fail, junk) = &al[*li];
+            let o = obs.get(k).cloned().unwrap_or(json!({"class":"Abort","out":[]}));
+            let line_out = o["out"].as_array().cloned().unwrap_or_default();
+            let stage = o.get("stage").and_then(|x| x.as_str()).unwrap_or("");
+            let rejected = stage == "parse" || stage == "compile";
+            if !junk.is_empty() {
+                // not a program at all: must be rejected, nothing printed
+                let ok = o["class"] == "Err" && line_out.is_empty();
+                let (nodes, root) = crate::ast::flatten(&[Stmt::Expr(crate::ast::id("nergens_gedeclareerd"))]);
+                let ob = if ok { json!({"class":"Err","kind":"Reference","out":[]}) } else { o.clone() };
+                writeln!(sem, "{}", json!({"id":id,"fam":"session-alphabet-junk","nodes":nodes,"root":root,"obs":ob,"parse_same":true})).unwrap();
+                writeln!(src, "{}", json!({"id":id,"text":format!("// session {:?} line {k}: {junk}", s)})).unwrap();
+                id += 1;
+                continue;
+            }
+            let mut prog = committed.clone();
+            prog.extend(stmts.clone());
+            let (nodes, root) = crate::ast::flatten(&prog);
+            let mut ob = o.clone();
+            let mut total = if rejected { vec![] } else { out_so_far.clone() };
+            total.extend(line_out.clone());
+            ob["out"] = Value::Array(total);
+            writeln!(sem, "{}", json!({"id":id,"fam":"session-alphabet","nodes":nodes,"root":root,"obs":ob,"parse_same":true})).unwrap();
+            writeln!(src, "{}", json!({"id":id,"text":format!("// session {:?}, line {k} as the last line of the program so far\n{}", s, to_text(&prog, false))})).unwrap();
+            id += 1;
+            // what this line contributes to later lines
+            if o["class"] == "Value" {
+                committed.extend(stmts.clone());
+                out_so_far.extend(line_out);
+            } else if !rejected && stage == "run" {
+                committed.extend(stmts[..*done_on_fail].to_vec());
+                out_so_far.extend(line_out);
+            }
+        }
+    }
+}
